@@ -37,6 +37,127 @@ type schedState struct {
 	ntrace   int32
 	switches int32
 	yields   int32
+	// library-internal yield points (kvql.SimYield, build tag verif)
+	active     bool
+	hookRng    uint64
+	hookPerMil int32
+	hookSites  []string // enabled sites for this run
+	hookYields int32
+	hookSwitch int32
+	hookCnt    [maxClients]int32 // per client: library yield points reached so far
+	// per-client schedules: csched[i][k] = the ID of the client to run after
+	// client i's k-th storage call, or -1 to keep running. Decisions that belong
+	// to one client do not move when another client is removed (shrinking).
+	perClient bool
+	csched    [maxClients][]int32
+	ccur      [maxClients]int32
+	ids       [maxClients]int32
+	siteCount [len(allHookSites)]int32
+}
+
+// allHookSites are the simYield sites compiled into /repo with the verif tag.
+var allHookSites = [...]string{"optimizer.parsed", "optimizer.planned", "filter.row", "filter.batch", "regexp.row",
+	"call.row", "alias.row", "call.batch", "alias.batch", "aggr.emit", "aggr.update", "order.collect", "order.emit",
+	"project.row", "project.batch", "limit.row", "error.render"}
+
+//go:norace
+func strEq(a, b string) bool {
+	if len(a) != len(b) {
+		return false
+	}
+	for i := 0; i < len(a); i++ {
+		if a[i] != b[i] {
+			return false
+		}
+	}
+	return true
+}
+
+//go:norace
+func schedSetHooks(sites []string, perMil int, seed uint64) {
+	sched.hookSites = sites
+	sched.hookPerMil = int32(perMil)
+	if seed == 0 {
+		seed = 0x9e3779b97f4a7c15
+	}
+	sched.hookRng = seed
+	sched.hookYields = 0
+	sched.hookSwitch = 0
+	for i := range sched.siteCount {
+		sched.siteCount[i] = 0
+	}
+}
+
+// schedYieldHook is installed as kvql.SimYield: the caller is necessarily the
+// token holder. Decisions come from a PRNG kept in the scheduler (seeded by
+// the scenario), not from the storage-call schedule, so that schedule keeps
+// its meaning when sites are switched on or off.
+//
+//go:norace
+func schedYieldHook(site string) {
+	if !sched.active || sched.hookPerMil <= 0 {
+		return
+	}
+	idx := -1
+	for i := 0; i < len(sched.hookSites); i++ {
+		if strEq(sched.hookSites[i], site) {
+			idx = i
+			break
+		}
+	}
+	if idx < 0 {
+		return
+	}
+	for i := 0; i < len(allHookSites); i++ {
+		if strEq(allHookSites[i], site) {
+			sched.siteCount[i]++
+			break
+		}
+	}
+	sched.hookYields++
+	me := sched.turn
+	if me < 0 || me >= maxClients {
+		return
+	}
+	// the decision depends only on (seed, this client's ID, how many yield points
+	// it has reached): removing other clients does not move it
+	k := sched.hookCnt[me]
+	sched.hookCnt[me] = k + 1
+	x := sched.hookRng ^ (uint64(sched.ids[me])+1)*0x9e3779b97f4a7c15 ^ (uint64(k)+1)*0xd1342543de82ef95
+	x ^= x >> 30
+	x *= 0xbf58476d1ce4e5b9
+	x ^= x >> 27
+	x *= 0x94d049bb133111eb
+	x ^= x >> 31
+	if int32(x%1000) >= sched.hookPerMil {
+		return
+	}
+	wantID := int32((x >> 20) % uint64(maxClients))
+	next := int32(-1)
+	for i := int32(0); i < sched.n; i++ {
+		if sched.ids[i] == wantID && sched.alive[i] {
+			next = i
+			break
+		}
+	}
+	if next < 0 {
+		next = schedNextAlive(int32((x >> 28) % uint64(sched.n)))
+	}
+	if next < 0 || next == me {
+		return
+	}
+	if int(sched.ntrace) < len(sched.trace) {
+		sched.trace[sched.ntrace] = next + 100 // marks a switch at a library-internal point
+		sched.ntrace++
+	}
+	sched.hookSwitch++
+	sched.turn = next
+	schedWait(me)
+}
+
+//go:norace
+func schedHookCounters() (yields, switches int, perSite [len(allHookSites)]int32) {
+	return int(sched.hookYields), int(sched.hookSwitch), sched.siteCount
 }
 
 var sched schedState
@@ -54,7 +175,31 @@ func schedReset(n int, schedule []int32, trace []int32) {
 	sched.ntrace = 0
 	sched.switches = 0
 	sched.yields = 0
+	sched.active = true
+	sched.perClient = false
+	for i := 0; i < maxClients; i++ {
+		sched.ccur[i] = 0
+		sched.hookCnt[i] = 0
+		sched.ids[i] = int32(i)
+		sched.csched[i] = nil
+	}
 }
+
+// schedSetPerClient switches to per-client schedules (see schedState).
+//
+//go:norace
+func schedSetPerClient(ids []int32, cs [][]int32) {
+	sched.perClient = true
+	for i := 0; i < len(ids) && i < maxClients; i++ {
+		sched.ids[i] = ids[i]
+		if i < len(cs) {
+			sched.csched[i] = cs[i]
+		}
+	}
+}
+
+//go:norace
+func schedStop() { sched.active = false }
 
 //go:norace
 func schedNextAlive(from int32) int32 {
@@ -71,6 +216,33 @@ func schedNextAlive(from int32) int32 {
 //
 //go:norace
 func schedChoose(me int32, meAlive bool) int32 {
+	if sched.perClient {
+		next := me
+		if meAlive {
+			k := sched.ccur[me]
+			sched.ccur[me] = k + 1
+			if int(k) < len(sched.csched[me]) {
+				if want := sched.csched[me][k]; want >= 0 {
+					for i := int32(0); i < sched.n; i++ {
+						if sched.ids[i] == want && sched.alive[i] {
+							next = i
+							break
+						}
+					}
+				}
+			}
+		} else {
+			next = schedNextAlive(me)
+		}
+		if int(sched.ntrace) < len(sched.trace) {
+			sched.trace[sched.ntrace] = next
+			sched.ntrace++
+		}
+		if next != me {
+			sched.switches++
+		}
+		return next
+	}
 	want := int32(-1)
 	if int(sched.cursor) < len(sched.schedule) {
 		want = sched.schedule[sched.cursor]
@@ -135,7 +307,14 @@ func schedCounters() (yields, switches, ntrace int) {
 // runUnderScheduler runs body(c) for c in [0,n) on n goroutines under the
 // token scheduler and returns when all have finished.
 func runUnderScheduler(n int, schedule []int32, trace []int32, first int, body func(c int)) {
+	runUnderSchedulerX(n, schedule, trace, first, nil, body)
+}
+
+func runUnderSchedulerX(n int, schedule []int32, trace []int32, first int, setup func(), body func(c int)) {
 	schedReset(n, schedule, trace)
+	if setup != nil {
+		setup()
+	}
 	var wg sync.WaitGroup
 	for c := 0; c < n; c++ {
 		wg.Add(1)
@@ -148,6 +327,7 @@ func runUnderScheduler(n int, schedule []int32, trace []int32, first int, body f
 	}
 	schedKick(first)
 	wg.Wait()
+	schedStop()
 }
 
 // --- self-test -------------------------------------------------------------
